@@ -13,7 +13,7 @@ func init() { register("C03", checkC03) }
 
 func checkC03(r *Run) propMeta {
 	meta := propMeta{Level: "other",
-		Explanation: "Decides structural necessary conditions of closedness of the emitted SQL: (a) parameter closure — every construction of a pgsql.Parameter node in the translator is paired, in the same statement group, with a store of a value under the same identifier into the parameter map that is returned (or the path ends in an error); (b) DML origin — INSERT/UPDATE/DELETE/MERGE nodes whose target is a persistent table of schema_up.sql are constructible only under the translator's updating-clause dispatch (control gate) or per element of a collection that only that dispatch fills (data gate); INSERTs into the harness's session temp tables are allowed on read paths and listed; (c) [rewriter reach is decided under C11's SQL-walker rule]; (d) no walk error is discarded (`_ = walk.PgSQL(…)` or a bare call) except at sites listed with a reason. (e) in the CREATE builders every helper that frame-qualifies identifiers (reaches RewriteFrameBindings) is called after buildCreateSourceFrame; (f) a liveness collector that suppresses its *cypher.Variable arm by traversal state looks, in the arms that run in the suppressed mode, at every expression-holding field of the node type (otherwise a variable read only there is pruned and its reference dangles). NOT decided: that each reference resolves to exactly one in-scope definition and that CTE column lists match their bodies — that is a binder over runtime-built ASTs for all queries.",
+		Explanation: "Decides structural necessary conditions of closedness of the emitted SQL: (a) parameter closure — every construction of a pgsql.Parameter node in the translator is paired, in the same statement group, with a store of a value under the same identifier into the parameter map that is returned (or the path ends in an error); (b) DML origin — INSERT/UPDATE/DELETE/MERGE nodes whose target is a persistent table of schema_up.sql are constructible only under the translator's updating-clause dispatch (control gate) or per element of a collection that only that dispatch fills (data gate); INSERTs into the harness's session temp tables are allowed on read paths and listed; (c) [rewriter reach is decided under C11's SQL-walker rule]; (d) no walk error is discarded (`_ = walk.PgSQL(…)` or a bare call) except at sites listed with a reason. (e) in the CREATE builders every helper that frame-qualifies identifiers (reaches RewriteFrameBindings) is called after buildCreateSourceFrame; (f) a liveness collector that suppresses its *cypher.Variable arm by traversal state looks, in the arms that run in the suppressed mode, at every expression-holding field of the node type (otherwise a variable read only there is pruned and its reference dangles). (g) every producer of PatternTarget/TraversalStepTarget keys numbers clauses by their position in the reading-clause list; (h) Scope.Snapshot re-points the copied bindings' dependency pointers; (i) a frame-qualified reference guarded by Known().Contains asks the frame it names. NOT decided: that each reference resolves to exactly one in-scope definition and that CTE column lists match their bodies — that is a binder over runtime-built ASTs for all queries.",
 		Assumptions: []string{"persistent vs session tables are read from drivers/pg/query/sql/schema_up.sql"},
 		TrustedBase: []string{"go/types", "this analyser"}}
 	if err := r.Load("./..."); err != nil {
@@ -28,6 +28,9 @@ func checkC03(r *Run) propMeta {
 	checkDiscardedWalkErrors(r)
 	checkCreateFrameOrdering(r)
 	checkLivenessCollectors(r)
+	checkTargetIndexAgreement(r)
+	checkSnapshotRelinks(r)
+	checkFrameGuardAgreement(r)
 	r.Floor("C03-a-parameter-closure", 5)
 	r.Floor("C03-b-dml-origin", 8)
 	r.Floor("C03-d-walk-error", 5)
